@@ -311,6 +311,50 @@ def crash_key(h, err):
         return "crash:ubsan:%s" % m.group(1).strip().replace(" ", "_")[:40]
     return "crash:signal:%s" % h["enc"]
 
+def sweep_histories(ctx, so, bfs, quick):
+    """Flush / finish offsets swept over the bytes that follow a point where the encoder closes an LZMA2 chunk because
+    it is FULL (the replay predictions elsewhere use inputs whose chunks end only at flushes).  The boundary is
+    measured on the real encoder with glue; the histories are model plans RUN(e) X(0) and X(e), one unit = e bytes."""
+    rng = ctx.rng
+    lzopt = dict(dict_size=1 << 20, mf=0x14, mode=2, nice_len=rng.choice([64, 273]), depth=0)
+    base = dict(chain=dict(pre="none", lz="lzma2", props="p0"), lzopt=lzopt, data="text",
+                data_seed=rng.getrandbits(32), data_len=420000)
+    w = Worker(so); w.workdir = ctx.workdir
+    if w.p is None:
+        w.start()
+    w.errf.seek(0); w.errf.truncate()
+    w.p.stdin.write(json.dumps(dict(boundaries=base)) + "\n"); w.p.stdin.flush()
+    line = w.p.stdout.readline()
+    w.stop()
+    if not line:
+        raise MachineryError("chunk boundary probe failed")
+    bounds = [b["end"] for b in json.loads(line)["boundaries"] if b["kind"] == "lzma"]
+    if not bounds or bounds[0] > 300000:
+        raise MachineryError("the probe input does not fill an LZMA2 chunk: %s" % bounds[:3])
+    B = bounds[0]
+    # model plans of the two shapes, per encoder
+    shapes = {}
+    for k, (p, preds) in bfs.items():
+        if p["chain"] != base["chain"] or p["enc"] == "mt" or p["check"] != "crc":
+            continue
+        o = p["ops"]
+        if len(o) >= 2 and o[0]["k"] == "op" and o[0]["a"] == "RUN" and o[0]["n"] == 1 and o[1]["k"] == "op" \
+           and o[1]["a"] != "RUN" and o[1]["n"] == 0 and o[1]["ret"] == "STREAM_END":
+            shapes.setdefault((p["enc"], "run+" + o[1]["a"]), (dict(p, ops=o[:2]), {pr[:2] for pr in preds}))
+        if len(o) >= 1 and o[0]["k"] == "op" and o[0]["a"] != "RUN" and o[0]["n"] == 1 and o[0]["ret"] == "STREAM_END":
+            shapes.setdefault((p["enc"], o[0]["a"]), (dict(p, ops=o[:1]), {pr[:1] for pr in preds}))
+    if len(shapes) < 8:
+        raise MachineryError("only %d flush shapes found for the chunk-boundary sweep" % len(shapes))
+    offs = list(range(B + 1, B + 700))
+    rng.shuffle(offs)
+    offs = offs[:(90 if quick else 699)]
+    keys = sorted(shapes)
+    out = []
+    for i, e in enumerate(offs):
+        p, preds = shapes[keys[(i + e) % len(keys)]]
+        out.append((p, preds, dict(base, unit=e)))
+    return out, B
+
 def run_replays(ctx, so, plans, label, want_traces, ev_budget, nworkers=3, long=False):
     """plans: list of (plan, preds).  Returns list of (label, events) chosen for trace validation."""
     traces = []
@@ -319,8 +363,14 @@ def run_replays(ctx, so, plans, label, want_traces, ev_budget, nworkers=3, long=
     stats = collections.Counter()
     t0 = time.time()
     jobs = []
-    for n, (p, preds) in enumerate(plans):
-        jobs.append((n, p, preds, make_history(p, ctx.rng, long=long), ctx.rng.getrandbits(48)))
+    for n, item in enumerate(plans):
+        p, preds = item[0], item[1]
+        h = make_history(p, ctx.rng, long=long)
+        if len(item) > 2:
+            # fixed sizes / data / encoder options given by the caller
+            h.update(item[2]); h["grant"] = "big"; h["probe"] = False
+            h["ops"][-1]["n"] = 0
+        jobs.append((n, p, preds, h, ctx.rng.getrandbits(48)))
     lock = threading.Lock()
     def work(wi):
         w = Worker(so); w.workdir = ctx.workdir
@@ -664,6 +714,10 @@ def run(ctx):
     traces += run_replays(ctx, L["so"], [lng[k] for k in lk[:(100 if quick else 1000)]],
                           "streaming histories of 60 operations", 5 if quick else 40, 3000 if quick else 24000,
                           nworkers=3 if quick else 4, long=True)
+    sw, B = sweep_histories(ctx, L["so"], bfs, quick)
+    traces += run_replays(ctx, L["so"], sw, "flush / finish offsets swept over the %d bytes after the point where an LZMA2 "
+                          "chunk closes because it is full (input offset %d)" % (699, B), 4 if quick else 20,
+                          200 if quick else 1000, nworkers=3 if quick else 4)
     gm = gen_mid.result()
     ctx.add_tlc("GenXzStreamEnc(bfs, updates between the calls of an operation)", gm, exhaustive=True)
     mid = collect_plans([gm.out])
